@@ -580,10 +580,18 @@ func TestTrace(t *testing.T) {
 	rng := rand.New(rand.NewSource(tracefmt.Seed()))
 	nRandom := tracefmt.EnvInt("VERIF_N", 40)
 
+	firstOfKind := map[string]string{}
 	for _, c := range cs {
-		// 1. spec vectors: the reader is fed the SPEC's encoding
-		for _, v := range vs.Vec {
+		if _, ok := firstOfKind[c.k]; !ok {
+			firstOfKind[c.k] = c.fn
+		}
+		// 1. spec vectors: the reader is fed the SPEC's encoding.  Further function pairs of a
+		// kind (Int64/Float64 over Uint64 ...) get every 4th vector in the quick tier.
+		for i, v := range vs.Vec {
 			if v.K != c.k {
+				continue
+			}
+			if firstOfKind[c.k] != c.fn && !tracefmt.Thorough() && i%4 != 0 {
 				continue
 			}
 			d.value(c, v.V, v.Max, toBytes(v.Enc))
